@@ -627,7 +627,7 @@ def array_stages(rep, tcfg, what, sigprefix):
     quick = rep.tier == "quick"
     maxel = 5 if quick else 7
     consts = {"EmitEdges": "TRUE", "MaxElems": maxel, "T": 256}
-    sel = (lambda ops, key: frac(key + rep.seed, 1, 2)) if quick else None
+    sel = (lambda ops, key: frac(key + rep.seed, 1, 2 if sigprefix == "c01" else 4)) if quick else None
     files, n, total = model_histories(rep, "MC_Array.tla", "MC_Array.cfg", consts,
                                       "MC_Array T=256 Sizes={19,60,117,130} MaxElems=%d (all shapes, all ops incl. rejected)" % maxel,
                                       {"cfg": {"T": 256}}, sel, sigprefix + "-mc")
@@ -1886,7 +1886,7 @@ def check_C03(rep):
     base = len(rep.distinct)
     rep.distinct.update(range(base, base + n))
     hist_stage(rep, "c03-array-edges-wrapped", ["array-run", "-tail", "2"], "array", "ArrayTrace.tla", "ArrayTrace_C03.cfg", wrap_persist(files), "tail", what)
-    nk, mk, den = (6, 5, 16) if quick else (7, 6, 8)
+    nk, mk, den = (6, 5, 32) if quick else (7, 6, 8)
     files, n, total = model_histories(rep, "MC_MapSlab.tla", "MC_MapSlab.cfg", {"EmitEdges": "TRUE", "Keys": keyset(nk), "MaxKeys": mk},
                                       "MC_MapSlab T=256 %d keys (<= %d present), each transition wrapped as commit(+drop/reopen), op, commit" % (nk, mk),
                                       {"cfg": {"T": 256, "limit": 255}}, lambda ops, key: frac(key + rep.seed, 1, den), "c03-mwrap", timeout=7200)
